@@ -186,3 +186,55 @@ func vhSameStored(a, b interface{}) bool {
 	}
 	return false
 }
+
+// Numeric text is parsed strictly (decimal integer, else a float literal):
+// concrete spellings through the real strconv.
+//verif:bounds 16 concrete text spellings (decimal, leading zeros, signs, hex/octal/binary prefixes, exponents, blanks, empty, letters) as TEXT and as BLOB x destinations int64, int32, int, bool, float64
+func VH_C18_numeric_text() {
+	type tc struct {
+		s     string
+		okInt bool
+		i     int64
+		okF   bool
+		f     float64
+	}
+	cases := [...]tc{
+		{"12", true, 12, true, 12}, {"-7", true, -7, true, -7}, {"+5", true, 5, true, 5},
+		{"010", true, 10, true, 10}, {"0755", true, 755, true, 755}, {"-017", true, -17, true, -17},
+		{"0x10", false, 0, false, 0}, {"0b101", false, 0, false, 0}, {"0o17", false, 0, false, 0},
+		{"1e3", true, 1000, true, 1000}, {"2.5", true, 2, true, 2.5},
+		{" 5", false, 0, false, 0}, {"5 ", false, 0, false, 0}, {"", false, 0, false, 0},
+		{"12abc", false, 0, false, 0}, {"abc", false, 0, false, 0},
+	}
+	c := cases[sdb.VerifChoice(len(cases))]
+	var row Row
+	if sdb.VerifChoice(2) == 0 {
+		row = Row{c.s}
+	} else {
+		row = Row{[]byte(c.s)}
+	}
+	switch sdb.VerifChoice(5) {
+	case 0:
+		var v int64
+		err := row.Scan(&v)
+		sdb.VerifAssert((err == nil) == c.okInt, "text -> int64: accepted iff a strict decimal/float literal")
+		sdb.VerifAssert(err != nil || v == c.i, "text -> int64 value")
+	case 1:
+		var v int32
+		err := row.Scan(&v)
+		sdb.VerifAssert((err == nil) == c.okInt && (err != nil || v == int32(c.i)), "text -> int32")
+	case 2:
+		var v int
+		err := row.Scan(&v)
+		sdb.VerifAssert((err == nil) == c.okInt && (err != nil || v == int(c.i)), "text -> int")
+	case 3:
+		var v bool
+		err := row.Scan(&v)
+		sdb.VerifAssert((err == nil) == c.okInt && (err != nil || v == (c.i != 0)), "text -> bool")
+	case 4:
+		var v float64
+		err := row.Scan(&v)
+		sdb.VerifAssert((err == nil) == c.okF && (err != nil || v == c.f), "text -> float64")
+	}
+	sdb.VerifReach("end")
+}
